@@ -161,6 +161,7 @@ def check(ctx):
     for (q, dt), why in REVIEWED.items():
         ctx.info(f"reviewed denominator {q}: `{dt}` - {why}")
     unit_consistency(ctx, repo)
+    sibling_caps(ctx, repo)
     ctx.extra_cov["denominators_discharged_by"] = discharged_by
     ctx.extra_cov["dates"] = len(dates)
     ctx.sample({"discharged_by": discharged_by})
@@ -245,3 +246,21 @@ def _params_only_nonzero(s, dag, d, name, cache):
             ok = False
     cache[name] = ok
     return ok
+
+
+def sibling_caps(ctx, repo):
+    from ._siblings import capped_multiplier_findings
+
+    ctx.rule("S-cap", "a parameter scaled by a capped count min(f(v), K) in one rule is scaled by the identical expression wherever another rule scales it by the same data variable (sibling copies of one statutory formula agree on the cap)")
+    seen = set()
+    n = 0
+    for key, where, msg in capped_multiplier_findings(repo):
+        if key == "__count__":
+            n = msg
+            continue
+        if key in seen:
+            continue
+        seen.add(key)
+        ctx.ob("S-cap", ok=False, distinct=key)
+        ctx.violation("S-cap", key, where, msg)
+    ctx.ob("S-cap", ok=True, distinct="groups", n=max(n, 1))
